@@ -32,6 +32,11 @@ Definition die_same (a b : DieSt) : bool :=
   same_rect (bbox a) (bbox b) && rects_eqb (spec a) (spec b) && rects_eqb (ground a) (ground b) &&
   rects_eqb (blockages a) (blockages b) && rects_eqb (fixedr a) (fixedr b).
 
+(* the same die up to the order in which the refinable regions are listed (no order is promised) *)
+Definition die_perm (a b : DieSt) : bool :=
+  same_rect (bbox a) (bbox b) && perm_rects (spec a) (spec b) && perm_rects (ground a) (ground b) &&
+  rects_eqb (blockages a) (blockages b) && rects_eqb (fixedr a) (fixedr b).
+
 Definition rejects {A} (x : result A) : bool := match x with Reject => true | _ => false end.
 
 (* d' is an admissible state after [op] was applied to d with this outcome *)
@@ -40,10 +45,10 @@ Definition step_ok (d : DieSt) (op : die_op) (out : outcome) (d' : DieSt) : bool
   | OSplit r n, Returned => die_split_ok d r n d'
   | OSplit r n, Raised => rejects (die_split_greedy d r n) && die_same d d'
   | OGrid nr nc, Returned =>
-      match initial_grid d nr nc with Ok m => die_same m d' | _ => false end
+      match initial_grid d nr nc with Ok m => die_perm m d' | _ => false end
   | OGrid nr nc, Raised => rejects (initial_grid d nr nc) && die_same d d'
   | ORead, Lists refin fixd =>
-      die_same d d' && rects_eqb (refinable d) refin && rects_eqb (fixedr d) fixd
+      die_same d d' && perm_rects (refinable d) refin && perm_rects (fixedr d) fixd
   | _, _ => false
   end.
 
